@@ -435,8 +435,61 @@ func (g *Gen) scenInstanceof() []N {
 	return out
 }
 
+// eval as a value (15.1.2.1.1): a call is a direct eval exactly when the callee is a reference to
+// an environment-record binding named "eval" that holds the built-in function: a formal
+// parameter, a local variable, a catch parameter or a with-object property named eval qualify;
+// the same function under another name, as a property, or another function named eval do not.
+func (g *Gen) scenEvalValue() []N {
+	x := g.fresh("xv")
+	f := g.fresh("fv")
+	probe := func(callee N) N {
+		switch g.pick(3) {
+		case 0:
+			return EvalVia(callee, Expr(Id(x)))
+		case 1:
+			return EvalVia(callee, Var(x, Str("declared")), Expr(Id(x)))
+		default:
+			return EvalVia(callee, Expr(Asg("=", Id(x), Bin("+", Id(x), Str("!")))), Expr(Un("typeof", This())))
+		}
+	}
+	fake := Fn("", []string{"s"}, g.hcall(Str("fake"), Id("s")), Return(Num(7)))
+	var body []N
+	arg := Id("eval")
+	switch g.pick(8) {
+	case 0: // formal parameter named eval
+		if g.chance(25) {
+			arg = fake
+		}
+		body = []N{FDecl(f, []string{"eval"}, Var(x, Str("local")), g.hcall(probe(Id("eval"))), Return(Id(x))), g.hcall(Call(Id(f), arg))}
+	case 1: // local variable named eval
+		init := []N{Dot(This(), "eval"), Id("eval"), fake}[g.pick(3)]
+		_ = init
+		body = []N{FDecl(f, []string{"ge"}, Var("eval", Id("ge")), Var(x, Str("local")), g.hcall(probe(Id("eval"))), Return(Id(x))),
+			g.hcall(Call(Id(f), []N{Id("eval"), fake}[g.pick(2)]))}
+	case 2: // catch parameter named eval
+		body = []N{FDecl(f, nil, Var(x, Str("local")), Try([]N{Throw(Id("eval"))}, "eval", []N{g.hcall(probe(Id("eval")))}, true, nil, false), Return(Id(x))),
+			g.hcall(Call(Id(f)))}
+	case 3: // with-object property named eval
+		body = []N{FDecl(f, nil, Var(x, Str("local")), With(Obj("eval", Id("eval"), x, Str("with")), Block(g.hcall(probe(Id("eval"))))), Return(Id(x))),
+			g.hcall(Call(Id(f)))}
+	case 4: // the built-in under another name: indirect
+		e := g.fresh("ge")
+		body = []N{FDecl(f, nil, Var(x, Str("local")), Var(e, Id("eval")), g.hcall(probe(Id(e))), Return(Id(x))), g.hcall(Call(Id(f)))}
+	case 5: // as a property of an object: indirect
+		o := g.fresh("oe")
+		body = []N{FDecl(f, nil, Var(x, Str("local")), Var(o, Obj("eval", Id("eval"))), g.hcall(probe(Dot(Id(o), "eval"))), Return(Id(x))), g.hcall(Call(Id(f)))}
+	case 6: // through the global object / this
+		body = []N{FDecl(f, nil, Var(x, Str("local")), g.hcall(probe(Dot(This(), "eval"))), Return(Id(x))), g.hcall(Call(Id(f)))}
+	default: // the plain global binding inside a function: direct
+		body = []N{FDecl(f, nil, Var(x, Str("local")), g.hcall(probe(Id("eval"))), Return(Id(x))), g.hcall(Call(Id(f)))}
+	}
+	return append([]N{Var(x, Str("global"))}, append(body, g.hcall(Id(x), Un("typeof", Id("eval")), Dot(Id("eval"), "length")))...)
+}
+
 func (g *Gen) scenario() []N {
-	switch g.pick(11) {
+	switch g.pick(12) {
+	case 11:
+		return g.scenEvalValue()
 	case 9:
 		return g.scenLabel()
 	case 10:
